@@ -35,8 +35,18 @@ def build_prop_class(cfg, faults):
         faults.hit("deleter")
         self.__dict__["base"] = 0
 
-    p = spec_property(getter, setter if cfg["setter"] else None, deleter if cfg["deleter"] else None,
-                      overridable=cfg["overridable"], cache=cfg["cache"])
+    if cfg.get("style", "ctor") == "ctor":
+        p = spec_property(getter, setter if cfg["setter"] else None, deleter if cfg["deleter"] else None,
+                          overridable=cfg["overridable"], cache=cfg["cache"])
+    else:
+        # decorator-with-options form, then the property-style chain; every link rebuilds the descriptor and must
+        # carry all options and the accessors attached so far
+        p = spec_property(overridable=cfg["overridable"], cache=cfg["cache"])(lambda self: None)
+        links = [("getter", getter)] + ([("setter", setter)] if cfg["setter"] else []) + ([("deleter", deleter)] if cfg["deleter"] else [])
+        if cfg["style"] == "chain_rev":
+            links.reverse()
+        for name, fn in links:
+            p = getattr(p, name)(fn)
     ns = {"prop": p, "__module__": "specsim.generated"}
     host = cfg["host"]
     if host in ("spec_annotated", "spec_annotated_prepared"):
@@ -128,12 +138,18 @@ class ClassPropModel:
         return ("ok", v)
 
     def assign(self, k, v):
+        if self.cfg.get("csetter"):
+            self.base = v
+            return ("ok", None)
         if self.cfg["overridable"]:
             self.cache[self.key(k)] = v
             return ("ok", None)
         return ("raise", (AttributeError,))
 
     def delete(self, k):
+        if self.cfg.get("cdeleter"):
+            self.base = 0
+            return ("ok", None)
         key = self.key(k)
         if key in self.cache:
             del self.cache[key]
@@ -152,7 +168,25 @@ def build_classprop_hierarchy(cfg, faults):
             return None  # a legitimate value: must be cached / returned like any other
         return f"{cls.__name__}:{state['base']}"
 
-    cp = classproperty(getter, cache=cfg["cache"], cache_per_subclass=cfg["per_subclass"], overridable=cfg["overridable"])
+    def csetter(cls, v):
+        faults.hit("csetter")
+        state["base"] = v
+
+    def cdeleter(cls):
+        faults.hit("cdeleter")
+        state["base"] = 0
+
+    kw = dict(cache=cfg["cache"], cache_per_subclass=cfg["per_subclass"], overridable=cfg["overridable"])
+    if cfg.get("style", "ctor") == "ctor":
+        cp = classproperty(getter, csetter if cfg.get("csetter") else None, cdeleter if cfg.get("cdeleter") else None, **kw)
+    else:
+        cp = classproperty(**kw)(lambda cls: None)
+        links = [("getter", getter)] + ([("setter", csetter)] if cfg.get("csetter") else []) + \
+            ([("deleter", cdeleter)] if cfg.get("cdeleter") else [])
+        if cfg["style"] == "chain_rev":
+            links.reverse()
+        for name, fn in links:
+            cp = getattr(cp, name)(fn)
     A = type("A", (), {"cp": cp, "__module__": "specsim.generated", "__annotations__": {}})
     if cfg["spec"]:
         A = spec_class(bootstrap=True)(A)
@@ -181,10 +215,11 @@ class C12(Check):
             if src.chance(0.7):
                 cfg = {"mode": "prop", "overridable": src.chance(0.5), "cache": src.chance(0.5), "setter": src.chance(0.5),
                        "deleter": src.chance(0.5), "host": src.choice(HOSTS), "getter": src.choice(["times10"] * 4 + ["tostr"]),
-                       "eager": src.chance(0.6)}
+                       "eager": src.chance(0.6), "style": src.choice(["ctor", "ctor", "chain", "chain_rev"])}
             else:
                 cfg = {"mode": "class", "cache": src.chance(0.6), "per_subclass": src.chance(0.5),
-                       "overridable": src.chance(0.5), "spec": src.chance(0.4)}
+                       "overridable": src.chance(0.5), "spec": src.chance(0.4), "csetter": src.chance(0.3),
+                       "cdeleter": src.chance(0.3), "style": src.choice(["ctor", "ctor", "chain", "chain_rev"])}
             ops_in = None
         ctx.case.update({"cfg": cfg, "ops": []})
         faults = Faults()
@@ -223,6 +258,7 @@ class C12(Check):
     def step_prop(self, ctx, cfg, faults, obj, model, op, idx):
         k = op["k"]
         combo = f"o{int(cfg['overridable'])}c{int(cfg['cache'])}s{int(cfg['setter'])}d{int(cfg['deleter'])}"
+        style = cfg.get("style", "ctor")
         slot_before = model.slot is not _NONE
         if k == "base":
             obj.__dict__["base"] = op["v"]
@@ -250,9 +286,9 @@ class C12(Check):
         faults.begin(None)
         ctx.evaluations += 1
         outcome = ("fault:" if fired else "") + (type(exc).__name__ if exc else "ok")
-        ctx.cell("prop", combo, cfg["host"], cfg["getter"], k, slot_before, outcome)
+        ctx.cell("prop", combo, style, cfg["host"], cfg["getter"], k, slot_before, outcome)
         ctx.log(idx, k, outcome)
-        sig = {"mode": "prop", "combo": combo, "host": cfg["host"], "op": k, "slot_before": slot_before}
+        sig = {"mode": "prop", "combo": combo, "style": style, "host": cfg["host"], "op": k, "slot_before": slot_before}
         if fired and exc is not None:
             # a user callback raised: the operation had no effect on the protocol state -- in particular a getter
             # that raises must not leave a cache entry
@@ -302,7 +338,8 @@ class C12(Check):
 
     def step_class(self, ctx, cfg, faults, classes, objs, state, model, op, idx):
         k, c = op["k"], op["c"]
-        combo = f"c{int(cfg['cache'])}p{int(cfg['per_subclass'])}o{int(cfg['overridable'])}s{int(cfg['spec'])}"
+        combo = (f"c{int(cfg['cache'])}p{int(cfg['per_subclass'])}o{int(cfg['overridable'])}s{int(cfg['spec'])}"
+                 f"fs{int(bool(cfg.get('csetter')))}fd{int(bool(cfg.get('cdeleter')))}:{cfg.get('style', 'ctor')}")
         if k == "base":
             state["base"] = op["v"]
             model.base = op["v"]
@@ -339,6 +376,9 @@ class C12(Check):
             ctx.violate(dict(sig, invariant="unexpected_exception", got=type(exc).__name__), {"op": op, "msg": strip_addr(str(exc))[:160]}, idx)
         elif k.startswith("read") and got != exp[1]:
             ctx.violate(dict(sig, invariant="read_value"), {"op": op, "got": strip_addr(repr(got))[:80], "want": exp[1]}, idx)
+        if state["base"] != model.base:
+            ctx.violate(dict(sig, invariant="underlying_state"), {"op": op, "real": repr(state["base"]), "model": repr(model.base)}, idx)
+            model.base = state["base"]
 
 
 CHECK = C12
